@@ -154,6 +154,20 @@ def htCopyA (h : HT) (newsize : Nat) (s : AS) : Option HT × AS :=
   | (none, s1) => (none, s1)
   | (some n, s1) => htCopyLoop h.allItems [n] s1
 
+/-- outcome of the UNCHANGED `hashtab_copy` (before fix F11): it uses the result of
+    `hashtab_create` without a check, so with at least one item to copy the first
+    `hashtab_lookup(h_new, …)` dereferences NULL -/
+inductive CopyOut where
+  | crash
+  | res (r : Option HT)
+deriving Repr, DecidableEq
+
+def htCopyUnfixedA (h : HT) (newsize : Nat) (s : AS) : CopyOut × AS :=
+  match htCreateA newsize s with
+  | (none, s1) => if h.allItems.isEmpty then (.res none, s1) else (.crash, s1)
+  | (some n, s1) => match htCopyLoop h.allItems [n] s1 with
+    | (r, s2) => (.res r, s2)
+
 /-! ## heap.c -/
 
 structure HP where
